@@ -448,7 +448,7 @@ func ruleP5(c *Ctx, id string) {
 // what the directory contains at that slot now.
 func ruleP8(c *Ctx, id string) {
 	V, P, R := c.V, c.P, c.R
-	R.Rule(id, "a cookie is refused on its own merits: the tests that lead to NFS3ERR_BAD_COOKIE do not read the directory's content (no Inode.Read / block read in what they compute)", 2)
+	R.Rule(id, "a cookie is refused on its own merits: the tests that lead to NFS3ERR_BAD_COOKIE do not read the directory's content (no Inode.Read / block read in what they compute)", 1)
 	bad := constOfPkg(P, "nfstypes", "NFS3ERR_BAD_COOKIE")
 	readsContent := func(f *ssa.Function) bool {
 		if f == nil || !IsRepoFunc(f) {
